@@ -12,6 +12,7 @@ import (
 	"encoding/json"
 	"fmt"
 	"math/big"
+	"os"
 	"sort"
 	"strings"
 
@@ -98,6 +99,9 @@ func (r *c05Runner) submit(op c05Op) error {
 		return nil
 	}
 	if err := r.c.bc.PoolTx(tx); err != nil {
+		if os.Getenv("VERIF_DEBUG") != "" {
+			fmt.Fprintf(os.Stderr, "skip %+v: %v\n", op, err)
+		}
 		r.skipped = append(r.skipped, i)
 		return nil
 	}
@@ -324,6 +328,7 @@ type c05Gen struct {
 	run  *c05Runner
 	ops  []c05Op
 	snap *c05Dump // storage at the last block boundary: steers the choice of operands (never the outcome)
+	notary bool   // the history designates P2PNotary nodes and sends transactions with the NotaryAssisted attribute
 }
 
 func (g *c05Gen) emit(op c05Op) error {
@@ -449,6 +454,28 @@ func (g *c05Gen) randomOp() c05Op {
 		}
 		return g.c.u.keyOfAcct[pick(r, c05Signers[:10])]
 	}
+	if g.notary && r.chance(16) {
+		switch y := r.intn(100); {
+		case y < 12: // other notary nodes from the next block on
+			return c05Op{T: "role", A: 2, K: r.intn(len(g.c.u.keys)), N: r.intn(3)}
+		case y < 22: // the fee per key changes (0 = the service is free: nothing is minted to the nodes)
+			return c05Op{T: "setattr", N: 0x22, A: pick(r, []int64{0, 300_0000, 1000_0000, 2500_0000})}
+		default:
+			if l := g.depositors(false); len(l) > 0 && r.chance(85) {
+				a = pick(r, l)
+			}
+			if a == c05AValidators {
+				a = 1
+			}
+			op := c05Op{T: "na", F: a, To: g.receiver(), A: int64(r.intn(3_0000_0000)), N: r.intn(5)}
+			if r.chance(25) {
+				op.K = 1 // the payer is the sender, Notary a further signer
+			} else if r.chance(15) {
+				op.W = 1 // the fees take the whole deposit: its record is removed
+			}
+			return op
+		}
+	}
 	switch x := r.intn(100); {
 	case x < 22:
 		to := g.receiver()
@@ -506,6 +533,8 @@ func (g *c05Gen) randomOp() c05Op {
 		amt := int64(2000_0000 + r.intn(5_0000_0000))
 		if r.chance(10) {
 			amt = int64(r.intn(2000_0000)) // below the minimum first deposit
+		} else if g.notary && r.chance(60) {
+			amt += 10_0000_0000 // enough to pay for a few assisted transactions
 		}
 		return c05Op{T: "dep", F: a, To: to, A: amt, N: till}
 	case x < 82:
@@ -586,6 +615,21 @@ func c05Generate(r *rng, c *c05Chain, run *c05Runner, nblocks int) ([]c05Op, err
 	}
 	if r.chance(50) {
 		if err := g.push(); err != nil {
+			return g.ops, err
+		}
+	}
+	if r.chance(65) {
+		// notary service: nodes designated (effective from the next block), a few deposits
+		g.notary = true
+		if err := g.emit(c05Op{T: "role", A: 2, K: r.intn(len(c.u.keys)), N: r.intn(3)}); err != nil {
+			return g.ops, err
+		}
+		for i := 0; i < 2+r.intn(3); i++ {
+			if err := g.emit(c05Op{T: "dep", F: pick(r, c05Signers), A: int64(5_0000_0000 + r.intn(20_0000_0000)), N: int(c.bc.BlockHeight()) + 10 + r.intn(30)}); err != nil {
+				return g.ops, err
+			}
+		}
+		if err := g.emit(c05Op{T: "blk"}); err != nil {
 			return g.ops, err
 		}
 	}
